@@ -23,6 +23,20 @@ fn check_bytes(t: &TypeOps, b: &[u8], g: &mut Gen, ctx: &mut Ctx) -> CaseResult 
         (Ok(_), Err(())) => fail!("{}: from_slice accepts {} but CBOR-parsing then converting does not", t.name, hex_trunc(b, 200)),
         (Err(e), Ok(_)) => fail!("{}: from_slice rejects {} ({:?}) but CBOR-parsing then converting accepts", t.name, hex_trunc(b, 200), e),
     }
+    // the same differential through the tagged entry point
+    if let (Some(tag), Some(dec_tagged)) = (t.tag, t.dec_tagged) {
+        let got_t = dec_tagged(b);
+        let via_t = match parse_one(b) {
+            Ok(Value::Tag(n, inner)) if n == tag => (t.dec_value)(*inner).map_err(|_| ()),
+            _ => Err(()),
+        };
+        match (&got_t, &via_t) {
+            (Ok(a), Ok(c)) => ensure!(a == c, "{}: from_tagged_slice and parse-then-convert yield different values on {}", t.name, hex_trunc(b, 200)),
+            (Err(_), Err(())) => {}
+            (Ok(_), Err(())) => fail!("{}: from_tagged_slice accepts {} but CBOR-parsing the bytes, removing the tag and converting does not", t.name, hex_trunc(b, 200)),
+            (Err(e), Ok(_)) => fail!("{}: from_tagged_slice rejects {} ({:?}) but CBOR-parsing the bytes, removing the tag and converting accepts", t.name, hex_trunc(b, 200), e),
+        }
+    }
     if got.is_err() {
         return Ok(());
     }
@@ -154,9 +168,83 @@ fn check_inside_protected(g: &mut Gen, ctx: &mut Ctx) -> CaseResult {
     Ok(())
 }
 
+/// Values nested right at the CBOR parser's recursion limit (256), inside an unprotected header,
+/// through the untagged and the tagged entry points: both API layers must draw the line at the same depth.
+fn check_depth_boundary(g: &mut Gen, ctx: &mut Ctx) -> CaseResult {
+    let d = 244 + g.below(18);
+    let opener: u8 = *g.pick(&[0x81u8, 0x81, 0x9f, 0xc1]);
+    let mut deep = vec![];
+    for _ in 0..d {
+        deep.push(opener);
+    }
+    deep.push(0x00);
+    if opener == 0x9f {
+        for _ in 0..d {
+            deep.push(0xff);
+        }
+    }
+    let types = all_types();
+    let t = &types[g.below(types.len())];
+    // body: a message / header / key / claims carrying the deep value under an unknown label
+    let body = match t.shape {
+        Shape::Msg(k) => {
+            let mut hdr = vec![0xa1, 0x18, 0x63];
+            hdr.extend_from_slice(&deep);
+            let mut b = match k {
+                Kind::Signature | Kind::Encrypt0 | Kind::Recipient => vec![0x83, 0x40],
+                Kind::Mac => vec![0x85, 0x40],
+                _ => vec![0x84, 0x40],
+            };
+            b.extend_from_slice(&hdr);
+            match k {
+                Kind::Signature => b.push(0x40),
+                Kind::Sign1 | Kind::Mac0 => b.extend_from_slice(&[0xf6, 0x40]),
+                Kind::Sign | Kind::Encrypt => b.extend_from_slice(&[0xf6, 0x80]),
+                Kind::Mac => b.extend_from_slice(&[0xf6, 0x40, 0x80]),
+                Kind::Encrypt0 | Kind::Recipient => b.push(0xf6),
+            }
+            b
+        }
+        Shape::Key => [&[0xa2u8, 0x01, 0x01, 0x18, 0x63][..], &deep].concat(),
+        Shape::Header | Shape::Claims => [&[0xa1u8, 0x18, 0x63][..], &deep].concat(),
+        _ => deep.clone(),
+    };
+    let tagged = t.tag.is_some() && g.bool();
+    let b = if let (true, Some(tag)) = (tagged, t.tag) {
+        let mut x = vec![];
+        crate::cbor::head(&mut x, 6, tag);
+        x.extend_from_slice(&body);
+        x
+    } else {
+        body
+    };
+    ctx.classf(format!("depth-boundary:{}", d));
+    ctx.nontrivial(hash_bytes(&[t.name.as_bytes(), &b].concat()));
+    ctx.sample_with(|| format!("{}{} with a value nested {} deep: {}", t.name, if tagged { " (tagged)" } else { "" }, d, hex_trunc(&b, 24)));
+    // only the differentials matter here (prefix/suffix work on such inputs is quadratic)
+    let got = (t.dec)(&b);
+    let via = match parse_one(&b) {
+        Ok(v) => (t.dec_value)(v).map_err(|_| ()),
+        Err(()) => Err(()),
+    };
+    ensure!(got.is_ok() == via.is_ok(), "{}: from_slice {} but parse-then-convert {} for a value nested {} deep", t.name, if got.is_ok() { "accepts" } else { "rejects" }, if via.is_ok() { "accepts" } else { "rejects" }, d);
+    if let (Some(tag), Some(dec_tagged)) = (t.tag, t.dec_tagged) {
+        let got_t = dec_tagged(&b);
+        let via_t = match parse_one(&b) {
+            Ok(Value::Tag(n, inner)) if n == tag => (t.dec_value)(*inner).map_err(|_| ()),
+            _ => Err(()),
+        };
+        ensure!(got_t.is_ok() == via_t.is_ok(), "{}: from_tagged_slice {} but parse-then-convert {} for a value nested {} deep ({})", t.name, if got_t.is_ok() { "accepts" } else { "rejects" }, if via_t.is_ok() { "accepts" } else { "rejects" }, d, hex_trunc(&b, 24));
+    }
+    Ok(())
+}
+
 fn case(g: &mut Gen, ctx: &mut Ctx) -> CaseResult {
     if g.ratio(1, 6) {
         return check_inside_protected(g, ctx);
+    }
+    if g.ratio(1, 12) {
+        return check_depth_boundary(g, ctx);
     }
     let types = all_types();
     let t = &types[g.below(types.len())];
